@@ -504,6 +504,9 @@ func init() {
 	muts = append(muts, op{name: "mutate: cert chain rebuilt over the same certificates with a refreshed OCSP response and no SCT list", ser: -1, mut: func(w *c18World) {
 		w.chain, _ = certurl.NewCertChain([]*x509.Certificate{fixtures.A.Leaf, fixtures.A.CA}, []byte("ocsp-response-refreshed"), nil)
 	}})
+	muts = append(muts, op{name: "mutate: cert chain ocsp bytes changed in place (same slice, same length)", ser: -1, mut: func(w *c18World) {
+		copy(w.chain[0].OCSPResponse, "OCSP") // idempotent
+	}})
 	menu = append(menu, muts...)
 	// calls whose destination fails at the k-th Write (a client going away while an artifact is
 	// served): the failed call itself is C19's business; here it is a history step after which
